@@ -294,6 +294,9 @@ def run_xls_cases(ctx, cases, tag):
         ctx.count("xls:" + c.get("profile", "corpus"))
         ctx.count("xls-regions:%s" % bucket(c["info"]["regions"]))
         ctx.count("xls-mergecells-records:%s" % bucket(c["info"]["records"]))
+        ctx.count("xls-nested-substreams:%s" % bucket(c["info"].get("subs", 0)))
+        if c["info"].get("subs_with_mergecells"):
+            ctx.count("xls-nested-substream-with-mergecells-record")
         ctx.sample({"case": c["desc"][:120] + "…", "impl_equals_model": i == m, "impl": (i or "")[:120]}, limit=6)
         os.remove(path)
 
@@ -434,11 +437,40 @@ def xls_batch(ctx, n, profile, tag):
         done += len(cases)
 
 
+def xls_corpus():
+    """the former defect XLS-2 (notes/AUDIT2.md 3.2): a worksheet with an embedded chart — MsoDrawing, OBJ, the
+    chart substream BOF ... EOF with its series cache — and the sheet's MergeCells records BEHIND it (that is the
+    order of [MS-XLS] 2.1.7.20.5).  The regions were lost because the sheet ended at the chart's EOF; a
+    MERGECELLS record inside the chart substream must not be taken."""
+    import struct
+    def sub(recs):
+        return ["OT", str(0x00EC), xs(bytes(8)), "OT", str(0x005D), xs(bytes(26)),
+                "SB", xs(struct.pack("<HHHHII", 0x0600, 0x0020, 0x0DBB, 0x07CC, 0, 0x0306)),
+                ",".join("%d:%s" % (t, xs(b)) for t, b in recs) or "-"]
+    cache = [(0x1001, struct.pack("<H", 0)), (0x0200, struct.pack("<IIHHH", 0, 2, 0, 2, 0)), (0x1065, struct.pack("<H", 1)),
+             (0x0203, struct.pack("<HHHd", 0, 0, 0, 10.0)), (0x0203, struct.pack("<HHHd", 1, 0, 0, 20.0)),
+             (0x1065, struct.pack("<H", 2)), (0x0204, struct.pack("<HHHHB", 0, 0, 0, 1, 0) + b"a")]
+    cases = []
+    def case(toks, names, regions, records, subs):
+        calls = []
+        for i, n in enumerate(names):
+            calls += ["merges " + hx(n), "mergesat %d" % i]
+        cases.append({"desc": " ".join(toks), "calls": ";".join(calls), "pack_seed": None, "profile": "corpus",
+                      "info": {"names": names, "regions": regions, "records": records, "sheets": len(names), "subs": subs}})
+    num = ["OT", str(0x0203), xs(struct.pack("<HHHd", 0, 0, 0, 1.0))]
+    case(["SH", xs("S1")] + num + sub(cache) + ["OT", str(0x023E), xs(bytes(18)), "MC", "4,0,5,1"], ["S1"], 1, 1, 1)
+    case(["SH", xs("S1")] + num + sub(cache + [(0x00E5, struct.pack("<HHHHH", 1, 7, 8, 1, 2)), (0x00E5, b"\x09")]) +
+         ["MC", "4,0,5,1/0,0,0,1", "SB", "x", "-", "MC", "9,9,9,9"] + sub([(0x0809, b""), (0x00E5, struct.pack("<H", 3)), (0x000A, b"")]) +
+         ["SH", xs("S2"), "MC", "1,1,2,2"] + sub(cache), ["S1", "S2"], 4, 3, 4)
+    return cases
+
+
 def run(ctx):
     for k, c in enumerate(CORPUS):
         c.setdefault("structured", True)
     run_witnesses(ctx)
     run_xlsx_cases(ctx, CORPUS, "k")
+    run_xls_cases(ctx, xls_corpus(), "kx")
     xlsx_batch(ctx, ctx.scale(4000, 60000), "structured", "s")
     xlsx_batch(ctx, ctx.scale(800, 10000), "malformed", "m")
     xls_batch(ctx, ctx.scale(1500, 20000), "structured", "b")
